@@ -455,7 +455,7 @@ func getRoundMessage(msg *Message, r round.Session) (round.Message, error) {
 	}
 
 	// unmarshal message
-	if err := cbor.Unmarshal(msg.Data, content); err != nil {
+	if err := unmarshalContent(msg.Data, content); err != nil {
 		return round.Message{}, fmt.Errorf("failed to unmarshal: %w", err)
 	}
 	roundMsg := round.Message{
@@ -465,6 +465,17 @@ func getRoundMessage(msg *Message, r round.Session) (round.Message, error) {
 		Broadcast: msg.Broadcast,
 	}
 	return roundMsg, nil
+}
+
+// unmarshalContent decodes data into content. The decoder panics on some malformed inputs
+// (for example null where content holds a non-nil interface value); such a panic is reported as an error.
+func unmarshalContent(data []byte, content round.Content) (err error) {
+	defer func() {
+		if r := recover(); r != nil {
+			err = fmt.Errorf("malformed content: %v", r)
+		}
+	}()
+	return cbor.Unmarshal(data, content)
 }
 
 // checkBroadcastHash is run after receivedAll() and checks whether all provided verification hashes are correct.
